@@ -2243,10 +2243,10 @@ func repoTagHandler(c web.C, w http.ResponseWriter, r *http.Request) {
 	newuuid, err := datastore.NewVersion(uuid, jsonData.Note, branch, &uuidTag)
 	if err != nil {
 		BadRequest(w, r, err)
-	} else {
-		w.Header().Set("Content-Type", "application/json")
-		fmt.Fprintf(w, "{%q: %q}", "child", newuuid)
+		return
 	}
+	w.Header().Set("Content-Type", "application/json")
+	fmt.Fprintf(w, "{%q: %q}", "child", newuuid)
 
 	// send tag op to kafka
 	msginfo := map[string]interface{}{
